@@ -155,7 +155,7 @@ pub fn run(ctx: &Ctx) {
     }
 
     // random strings over every residue
-    let max_len = if ctx.quick() { 4096usize } else { 8192 };
+    let max_len = if ctx.quick() { 4096usize } else { 65536 };
     let strat = (0usize..=max_len, any::<u64>()).prop_flat_map(|(len, _)| {
         // bias towards short strings, still covering long ones
         prop_oneof![
